@@ -4,7 +4,6 @@ import (
 	vp "github.com/Tnze/go-mc/internal/zzvp"
 )
 
-
 // RawMessage re-encodes byte for byte the value it decoded (fresh and reused).
 func VP_C02_rawmsg() {
 	n := vp.Choice(8)
